@@ -9,3 +9,8 @@ From FV.C01.gen Require Import Tables.
 
 Theorem C01_bang_comments_ignored : bang_ok ignore_pats = true.
 Proof. vm_compute. reflexivity. Qed.
+
+(* remove_useless_nodes re-attaches nodal variables by node id (premise of
+   C01_msh_roundtrip) *)
+Theorem C01_rebind_by_id : rebind_by_id = true.
+Proof. vm_compute. reflexivity. Qed.
